@@ -584,8 +584,10 @@ func panicLine(logs string) string {
 	for _, ln := range strings.Split(logs[i:], "\n") {
 		if strings.HasPrefix(ln, "github.com/metrico/qryn/") {
 			fn = ln
-			if k := strings.Index(fn, "("); k > 0 {
-				fn = fn[:k]
+			for _, cut := range []string{"(0x", "({", "(...", "()"} {
+				if k := strings.Index(fn, cut); k > 0 {
+					fn = fn[:k]
+				}
 			}
 			break
 		}
